@@ -91,6 +91,10 @@ def layout_edits(rec, li, n, seed, only=None):
                 if p not in layout:
                     edits.append((f"to-position-axis-lacks:{p}", call(to=p)))
             edits.append(("to-unknown-word", call(to="middle")))
+            # unknown words that are falsy: the empty string (scalar and in a mapping), another capitalisation
+            edits.append(("to-unknown-word:empty", call(to="")))
+            edits.append(("to-unknown-word-in-mapping:empty", call(to={"X": ""})))
+            edits.append(("to-unknown-word:capitalised", call(to=to.capitalize())))
             edits.append(("to-unknown-word-in-mapping", call(to={"X": "centre"})))
             if pads:
                 edits.append(("unknown-boundary-word", call(boundary="bogus")))
@@ -285,6 +289,20 @@ def ufunc_edits(rec, seed, only=None):
         ("no-axis", lambda: apply_as_grid_ufunc(f2, a, b, grid=g, signature=sig)),
         ("malformed-signature", lambda: apply_as_grid_ufunc(f2, a, b, axis=axis, grid=g, signature="(p:center,q:center),(p:left)")),
     ]
+    # a function that takes any number of arrays: too few inputs must be refused by the library, not by the function
+    fv = lambda *arrs: arrs[0]
+    sigv = "(p:center),(p:left)->(p:center)"
+    a1 = xr.DataArray(np.arange(3.0), dims=["xc"])
+    try:
+        apply_as_grid_ufunc(fv, a1, b, axis=[("X",), ("X",)], grid=g, signature=sigv)
+        edits += [
+            ("variadic:one-input-too-few-axis-list-shortened", lambda: apply_as_grid_ufunc(fv, a1, axis=[("X",)], grid=g, signature=sigv)),
+            ("variadic:one-input-too-few-axis-list-shortened:method", lambda: g.apply_as_grid_ufunc(fv, a1, axis=[("X",)], signature=sigv)),
+            ("variadic:one-input-too-few", lambda: apply_as_grid_ufunc(fv, a1, axis=[("X",), ("X",)], grid=g, signature=sigv)),
+            ("variadic:one-input-too-many", lambda: apply_as_grid_ufunc(fv, a1, b, b, axis=[("X",), ("X",), ("X",)], grid=g, signature=sigv)),
+        ]
+    except Exception:
+        rec.counters["valid-twin-raised"] += 1
     for ename, efn in edits:
         case = dict(kind="ufunc", edit=ename)
         if only is not None and only != case:
